@@ -215,6 +215,11 @@ def t_pool(x=0, *a, **k):
                 time.sleep(0.005)
             except Exception:
                 pass
+    if x == -2:
+        # hard death in the middle of a run: no Python-level clean-up, no end marker (in a thread worker: an exception)
+        import multiprocessing as _mp
+        if _mp.current_process().name != 'MainProcess':
+            os.kill(os.getpid(), 9)
     if isinstance(x, int) and x < 0:
         raise ValueError('poison')
     return x * x
